@@ -16,7 +16,12 @@ VALUES = ['vh-argv -x', 'vh-argv "a b"', "vh-argv 'q'", 'n -y', 'm.x-1 z', 'vh-a
 USES = [('{} r', 'head'), ('vh-argv a | {} r', 'after-pipe'), ('vh-mark 1 0 ; {} r', 'after-semicolon'),
         ('vh-mark 1 0 && {} r', 'after-and'), ('vh-argv {} r', 'non-first-word'),
         # arguments that are themselves alias names (after an aliased and after a plain command word)
-        ('{} n m.x-1', 'head-with-alias-named-arguments'), ('vh-argv a | {} m.x-1 n', 'after-pipe-with-alias-named-arguments')]
+        ('{} n m.x-1', 'head-with-alias-named-arguments'), ('vh-argv a | {} m.x-1 n', 'after-pipe-with-alias-named-arguments'),
+        ('vh-mark 1 1 || {} r', 'after-or'), ('vh-mark 1 0 ;{} r', 'after-semicolon-tight'), ('{} r > f1', 'head-with-redirection'),
+        ('{} r 2>&1 | vh-argv2 z', 'head-of-pipeline-with-redirection')]
+
+
+EXTRA_USES = ('after-or', 'after-semicolon-tight', 'head-with-redirection', 'head-of-pipeline-with-redirection')
 
 
 def define(name, value, q):
@@ -69,6 +74,8 @@ def run_transition(job):
         # one shell per use so that a failing use cannot disturb the next one
         for name in NAMES:
             for tmpl, pos in USES:
+                if pos in EXTRA_USES and name != NAMES[0] and os.environ.get('VERIF_TIER_C17') != 'thorough':
+                    continue       # quick: the additional use forms with the first name only
                 use = tmpl.format(name)
                 line = ' ; '.join(texts + [use, 'vh-mark S 0 $?'])
                 try:
@@ -116,6 +123,7 @@ def run_transition(job):
 
 
 def run(rep, tier):
+    os.environ['VERIF_TIER_C17'] = tier
     rep.rule = ('BFS over the alias table (names %r, values %r) to the fixpoint; every define/redefine/unalias from every state, every use form after each; '
                 'non-trivial = transition that changes the table; distinct = distinct (table, operation)' % (NAMES, VALUES))
     rep.assumptions = [
